@@ -156,6 +156,73 @@ func runC10(c *Ctx) {
 			}
 		}
 	}
+	c.Bound("two-clients", "two independent BaseClients (package-level state is shared) running Connect / Connect+Publish concurrently; P<=2 S<=1; race monitor on")
+	for _, op2 := range []string{"connect", "pub1", "ping"} {
+		op2 := op2
+		var net *env.Net
+		sc := &vrt.Scenario{
+			Name:  "C10/two-clients/connect+" + op2,
+			Bound: vrt.Budget{P: p + 1, S: 1},
+			Cfg:   vrt.Config{Race: true, Horizon: int64(60 * time.Second), StepCap: 100000},
+			Body: func() {
+				net = env.NewNet()
+				s1, s2 := env.NewScript(net), env.NewScript(net)
+				c10AutoPeer(s1, false)
+				c10AutoPeer(s2, false)
+				a, b := &mqtt.BaseClient{Transport: s1.Conn}, &mqtt.BaseClient{Transport: s2.Conn}
+				if op2 != "connect" {
+					if _, err := b.Connect(vctx.Background(), "b"); err != nil {
+						vrt.Failf("harness", "connect: %v", err)
+						return
+					}
+				}
+				vrt.Go("a-connect", func() { a.Connect(vctx.Background(), "a") })
+				vrt.Go("b-"+op2, func() {
+					if op2 == "connect" {
+						b.Connect(vctx.Background(), "b")
+					} else {
+						c10BaseOp(b, op2, 1)
+					}
+				})
+				vrt.Quiesce()
+				desc := func() string { return "wire:\n  " + strings.Join(net.TraceStrings(), "\n  ") }
+				c10ReportRaces("two clients connect+"+op2, desc)
+			},
+			Observe: func() uint64 { return net.TraceHash() },
+		}
+		c.Explore(sc)
+		if net != nil {
+			lastNet = net
+		}
+	}
+	c.Bound("base-connect", "BaseClient: Connect running concurrently with each of {ping, pub1, sub, handle, stats, done, err} on a fresh client; P<=2 S<=1; race monitor on")
+	for _, b := range []string{"ping", "pub1", "sub", "handle", "stats", "done", "err"} {
+		b := b
+		var net *env.Net
+		sc := &vrt.Scenario{
+			Name:  "C10/base-connect/connect+" + b,
+			Bound: vrt.Budget{P: p + 1, S: 1},
+			Cfg:   vrt.Config{Race: true, Horizon: int64(60 * time.Second), StepCap: 100000},
+			Body: func() {
+				net = env.NewNet()
+				s := env.NewScript(net)
+				s.Conn.Chunked = true
+				c10AutoPeer(s, true)
+				cli := &mqtt.BaseClient{Transport: s.Conn}
+				vrt.Go("op-connect", func() { cli.Connect(vctx.Background(), "c10") })
+				vrt.Go("op-"+b, func() { c10BaseOp(cli, b, 1) })
+				vrt.Quiesce()
+				desc := func() string { return "wire:\n  " + strings.Join(net.TraceStrings(), "\n  ") }
+				c10WireAtomic(s.Conn, desc)
+				c10ReportRaces("BaseClient connect+"+b, desc)
+			},
+			Observe: func() uint64 { return net.TraceHash() },
+		}
+		c.Explore(sc)
+		if net != nil {
+			lastNet = net
+		}
+	}
 	for _, a := range c10RetryOps {
 		for _, b := range c10RetryOps {
 			for _, phase := range []string{"now", "reconnecting"} {
